@@ -1,0 +1,172 @@
+//! Read-only introspection hooks used by the external verification harness.
+//!
+//! Compiled only with the `verif` cargo feature. Nothing in here changes the behaviour of
+//! the collector: every function only reads state (the only writes are to the harness-owned
+//! report log below).
+
+use alloc::vec::Vec;
+use core::cell::{Cell, RefCell};
+use core::ptr::NonNull;
+
+use crate::cc::CcBox;
+use crate::state::try_state;
+use crate::{Cc, Trace, POSSIBLE_CYCLES};
+
+/// Raw view of the header of a managed allocation.
+#[derive(Clone, Copy, Debug, PartialEq, Eq)]
+pub struct ObjectSnapshot {
+    /// Address of the managed allocation (the `CcBox`).
+    pub box_addr: usize,
+    /// Raw 16 bit word holding the tracing counter and the mark.
+    pub raw_tracing: u16,
+    /// Raw 16 bit word holding the reference counter and the flags.
+    pub raw_counter: u16,
+}
+
+impl ObjectSnapshot {
+    /// Strong counter (14 bits).
+    pub fn strong(&self) -> u16 {
+        self.raw_counter & 0x3FFF
+    }
+
+    /// Tracing counter (14 bits). The all-ones value means "dropped".
+    pub fn tracing(&self) -> u16 {
+        self.raw_tracing & 0x3FFF
+    }
+
+    /// Mark: 0 = not marked, 1 = in possible cycles, 2 = in list, 3 = in queue.
+    pub fn mark(&self) -> u8 {
+        (self.raw_tracing >> 14) as u8
+    }
+
+    /// Finalized bit.
+    pub fn finalized(&self) -> bool {
+        (self.raw_counter & (1 << 14)) != 0
+    }
+
+    /// Side record (metadata) allocated bit.
+    pub fn has_side_record(&self) -> bool {
+        (self.raw_counter & (1 << 15)) != 0
+    }
+
+    /// Dropped flag (tracing counter has the reserved all-ones value).
+    pub fn dropped(&self) -> bool {
+        self.tracing() == 0x3FFF
+    }
+}
+
+fn snapshot_of(ptr: NonNull<CcBox<()>>) -> ObjectSnapshot {
+    let (raw_tracing, raw_counter) = unsafe { ptr.as_ref() }.counter_marker().verif_raw();
+    ObjectSnapshot {
+        box_addr: ptr.as_ptr() as usize,
+        raw_tracing,
+        raw_counter,
+    }
+}
+
+/// Snapshot of the header of the allocation `cc` points to.
+pub fn object_snapshot<T: ?Sized + Trace>(cc: &Cc<T>) -> ObjectSnapshot {
+    snapshot_of(NonNull::from(cc.inner()).cast())
+}
+
+/// Snapshot of the header of the allocation at `box_addr`.
+///
+/// # Safety
+/// `box_addr` must be the address of a managed allocation that has not been released.
+pub unsafe fn object_snapshot_at(box_addr: usize) -> ObjectSnapshot {
+    snapshot_of(NonNull::new_unchecked(box_addr as *mut CcBox<()>))
+}
+
+/// Snapshot of the possible-cycles buffer.
+#[derive(Clone, Debug, Default)]
+pub struct BufferSnapshot {
+    /// The cached size.
+    pub cached_size: usize,
+    /// The entries found walking the list (at most `limit` of them).
+    pub entries: Vec<ObjectSnapshot>,
+    /// `true` if every `prev` link agrees with the `next` link that led to the entry.
+    pub links_consistent: bool,
+    /// `true` if the walk was stopped by the limit (the list is longer, or cyclic).
+    pub truncated: bool,
+}
+
+/// Walks the possible-cycles buffer of the current thread, visiting at most `limit` entries.
+///
+/// Returns `None` if the buffer is not accessible (thread teardown).
+pub fn buffer_snapshot(limit: usize) -> Option<BufferSnapshot> {
+    POSSIBLE_CYCLES
+        .try_with(|pc| {
+            let mut snap = BufferSnapshot {
+                cached_size: pc.size(),
+                entries: Vec::new(),
+                links_consistent: true,
+                truncated: false,
+            };
+            let mut prev: Option<NonNull<CcBox<()>>> = None;
+            let mut cur = pc.first();
+            while let Some(ptr) = cur {
+                if snap.entries.len() >= limit {
+                    snap.truncated = true;
+                    break;
+                }
+                unsafe {
+                    if *ptr.as_ref().get_prev() != prev {
+                        snap.links_consistent = false;
+                    }
+                    snap.entries.push(snapshot_of(ptr));
+                    prev = Some(ptr);
+                    cur = *ptr.as_ref().get_next();
+                }
+            }
+            snap
+        })
+        .ok()
+}
+
+/// The collector's phase flags: `(collecting, finalizing, dropping)`.
+///
+/// `finalizing` is always `false` when the `finalization` feature is disabled.
+pub fn state_flags() -> Option<(bool, bool, bool)> {
+    try_state(|state| {
+        #[cfg(feature = "finalization")]
+        let finalizing = state.is_finalizing();
+        #[cfg(not(feature = "finalization"))]
+        let finalizing = false;
+        (state.is_collecting(), finalizing, state.is_dropping())
+    })
+    .ok()
+}
+
+/// The current bytes threshold of the automatic collection policy.
+#[cfg(feature = "auto-collect")]
+pub fn bytes_threshold() -> Option<usize> {
+    crate::config::config(|config| config.verif_bytes_threshold()).ok()
+}
+
+crate::utils::rust_cc_thread_local! {
+    static TRACE_REPORTS_ON: Cell<bool> = const { Cell::new(false) };
+    static TRACE_REPORTS: RefCell<Vec<usize>> = const { RefCell::new(Vec::new()) };
+}
+
+/// Switches the recording of the allocations reported to the collector through `Cc::trace`.
+pub fn trace_reports(on: bool) {
+    let _ = TRACE_REPORTS_ON.try_with(|flag| flag.set(on));
+}
+
+/// Takes the addresses of the allocations reported since the recording was switched on.
+pub fn take_trace_reports() -> Vec<usize> {
+    TRACE_REPORTS
+        .try_with(|reports| core::mem::take(&mut *reports.borrow_mut()))
+        .unwrap_or_default()
+}
+
+#[inline]
+pub(crate) fn record_trace_report(ptr: NonNull<CcBox<()>>) {
+    if TRACE_REPORTS_ON.try_with(|flag| flag.get()).unwrap_or(false) {
+        let _ = TRACE_REPORTS.try_with(|reports| {
+            if let Ok(mut reports) = reports.try_borrow_mut() {
+                reports.push(ptr.as_ptr() as usize);
+            }
+        });
+    }
+}
